@@ -12,7 +12,7 @@ import (
 var (
 	zzDatagrams [][]byte
 	zzSenders   []*net.UDPAddr
-	zzNextDgram      int
+	zzNextDgram int
 	zzBlock     chan struct{}
 )
 
@@ -31,7 +31,9 @@ func zzStubReadFromUDP(c *net.UDPConn, b []byte) (int, *net.UDPAddr, error) {
 	zzNextDgram++
 	return n, a, nil
 }
-func zzStubUDPLocalAddr(c *net.UDPConn) net.Addr { return &net.UDPAddr{IP: net.IPv4(127, 0, 0, 1), Port: 5300} }
+func zzStubUDPLocalAddr(c *net.UDPConn) net.Addr {
+	return &net.UDPAddr{IP: net.IPv4(127, 0, 0, 1), Port: 5300}
+}
 func zzStubWriteToUDP(c *net.UDPConn, b []byte, addr *net.UDPAddr) (int, error) {
 	return len(b), nil
 }
